@@ -62,6 +62,23 @@ def run(chk):
     ra1, dec1, ra2, dec2 = symx.symbols("ra1", "dec1", "ra2", "dec2")
     ra, dec = symx.symbols("ra", "dec")
 
+    # ---- the term domain below ignores aliasing: the four coordinate arguments must never be written (the same array may be
+    # passed for two of them, e.g. gcirc(ra1, dec, ra2, dec), and an in-place unit conversion would then be applied twice)
+    from vcheck import effects
+    from checks.C15 import analyse_with_arrays
+    eng = effects.Effects(repo, {})
+    for q, params, variants in ((CO + "gcirc", ["ra1deg", "dec1deg", "ra2deg", "dec2deg"], [{"getangle": False}, {"getangle": True}]),
+                                (CO + "sphdist", ["ra1", "dec1", "ra2", "dec2"], [{}]),
+                                (CO + "eq2xyz", ["ra", "dec"], [{"units": "deg"}, {"units": "rad"}])):
+        f0 = repo.func(q)
+        for flags in variants:
+            s0 = analyse_with_arrays(eng, f0, params, flags)
+            for p_ in params:
+                sites = [st for st in s0.mut.get(p_, []) if st.kind in ("data", "meta")]
+                fl = ",".join("%s=%s" % kv for kv in sorted(flags.items()))
+                chk.ob("R08.7", "%s(%s)%s" % (f0.name, p_, "[%s]" % fl if fl else ""), not sites, sites[0].where() if sites else f0.where(),
+                       "argument `%s` is never written%s" % (p_, "" if not sites else ": " + sites[0].describe()))
+
     # ---- lon/lat -> unit vector -------------------------------------------
     fi = repo.func(CO + "eq2xyz")
     chk.analysed_unit(fi.qualname)
